@@ -22,6 +22,7 @@ import collections
 import hashlib
 import itertools
 import json
+import math
 import os
 import re
 import shutil
@@ -285,6 +286,19 @@ class Ctx:
                                               "expected_scale": fshow(x.scale), "expected_bases": x.bases}, rp)
                 continue
             self.counts["ok:" + fam] += 1
+            # the scale as the library itself applies it: 1 <text> expressed in (m, s, mol) is the ratio of the SI scales
+            # (judged when that ratio is well inside the double range; the arithmetic needs no huge intermediate)
+            try:
+                exact = x.scale / si.scale(("m", "s", "mol"), x.dim)
+                if Fr(10) ** -280 < exact < Fr(10) ** 280:
+                    got = float(self.U.UnitValue(1.0, u).convert(self.U.UnitsSystem(space="m", time="s", quantity="mol")).value)
+                    self.counts["applied_scale_checks"] += 1
+                    if not (math.isfinite(got) and abs(Fr(got) - exact) <= exact * Fr(1, 10 ** 11)):
+                        self.fail("si-scale-applied", entry, {"text": text, "one_unit_in_m_s_mol": got, "expected": fshow(exact)}, rp)
+                        continue
+            except Exception as e:
+                self.fail("si-scale-applied", entry, {"text": text, "error": "%s: %s" % (type(e).__name__, e)}, rp)
+                continue
             # print - parse of what was read
             try:
                 t2 = str(u)
